@@ -576,8 +576,11 @@ func (P *Program) callMods(c *ssa.CallCommon) (map[string]bool, []*ssa.Function)
 		out[ModStar] = true
 		return out, nil
 	}
-	if fc := P.contractFor(FuncKey(callee)); fc != nil && (fc.Trusted || fc.Pure) {
+	if fc := P.contractFor(FuncKey(callee)); fc != nil && (fc.Trusted || fc.Pure || fc.NoEffects) {
 		P.contractMods(fc, c, out)
+		for _, g := range fc.Sets {
+			out["H:"+g.Name] = true
+		}
 		return out, nil
 	}
 	if callee.Blocks != nil && (callee.Pkg != nil && IsRepoPath(callee.Pkg.Pkg.Path()) || callee.Parent() != nil) {
